@@ -370,15 +370,66 @@ pub fn run(ctx: &Ctx) -> i32 {
     for p in parts {
         acc.merge(p);
     }
+    // 4. amounts: long lines and long histories
+    let mut longs: Vec<(String, Vec<Key>)> = Vec::new();
+    for n in [255usize, 256, 257, 1000, 4096, 5000] {
+        // a line of n characters (every third one multi-byte, a space every 7th), edited at both ends and in the middle
+        let mut k: Vec<Key> = (0..n).map(|i| Key::Char(if i % 7 == 6 { ' ' } else if i % 3 == 0 { 'é' } else { 'a' })).collect();
+        k.extend([Key::CtrlLeft, Key::Char('x'), Key::Backspace, Key::Delete]);
+        k.extend(std::iter::repeat(Key::Left).take(n / 2));
+        k.extend([Key::Char('𝄞'), Key::CtrlRight, Key::Delete, Key::CtrlLeft, Key::CtrlLeft, Key::Backspace]);
+        k.extend(std::iter::repeat(Key::CtrlLeft).take(n / 6 + 2));
+        k.extend([Key::Char('y'), Key::Delete, Key::Enter, Key::Up, Key::Char('z'), Key::Enter]);
+        longs.push((format!("line-of-{n}"), k));
+    }
+    for m in [10usize, 100, 255, 256, 257, 1000] {
+        // m submitted lines, then Up past the oldest, Down past the newest, an edit in the middle
+        let mut k: Vec<Key> = Vec::new();
+        for i in 0..m {
+            k.extend(format!("l{i}").chars().map(Key::Char));
+            k.push(Key::Enter);
+        }
+        k.extend(std::iter::repeat(Key::Up).take(m + 2));
+        k.extend([Key::Char('a'), Key::Enter]);
+        k.extend(std::iter::repeat(Key::Up).take(m / 2));
+        k.extend(std::iter::repeat(Key::Down).take(m / 4));
+        k.extend([Key::Char('b'), Key::Enter, Key::Up, Key::Up]);
+        k.extend(std::iter::repeat(Key::Down).take(m + 3));
+        k.extend([Key::Char('c'), Key::Enter]);
+        longs.push((format!("history-of-{m}"), k));
+    }
+    let parts = crate::isolate::pooled(None, longs.len(), 1, Acc::new, |acc, i| {
+        let (name, keys) = &longs[i];
+        acc.eval("amounts");
+        // every prefix that ends after one of the last 40 keys is a history of its own
+        for cut in keys.len().saturating_sub(40)..=keys.len() {
+            let (verdict, _) = judge(0, &keys[..cut]);
+            match verdict {
+                Some((sig, what)) => {
+                    acc.outcome(format!("violation:{sig}"));
+                    let what = if what.len() > 400 { format!("{}...", what.chars().take(400).collect::<String>()) } else { what };
+                    acc.violation(format!("{sig}/amounts"), format!("{name}, first {cut} keys: {what}"), json!({"initial_history": HISTORIES[0], "key_codes": key_codes(&keys[..cut]), "hist": 0, "amounts": name}));
+                    return;
+                }
+                None => {}
+            }
+        }
+        acc.nontrivial();
+        acc.gate("long-lines-and-histories");
+        acc.outcome(format!("amounts/{}", name.split('-').next().unwrap_or("")));
+    });
+    for p in parts {
+        acc.merge(p);
+    }
 
-    let rule = "BFS over key histories (15-key alphabet incl. 2-byte, 3-byte (the white-space character U+3000) and 4-byte characters, every editing key, Enter) from 3 initial histories (empty, two entries incl. multi-byte and ';', one with a blank entry as an externally written history file can contain); each transition replays the history on a fresh real Terminal through its read() and on the reference editor; distinct_nontrivial counts transitions whose real and reference views agreed (each is a distinct history). Plus a character sweep: every non-control character of the Basic Multilingual Plane and 4 blocks beyond it (thorough: planes 0-3 and the first 4096 of plane 14) in 24 key templates (the character next to a letter, punctuation, a space and itself; 0..7 word motions from either end then an insertion; Backspace/Delete around it; a line of it alone; recalled from history and edited)";
+    let rule = "BFS over key histories (15-key alphabet incl. 2-byte, 3-byte (the white-space character U+3000) and 4-byte characters, every editing key, Enter) from 3 initial histories (empty, two entries incl. multi-byte and ';', one with a blank entry as an externally written history file can contain); each transition replays the history on a fresh real Terminal through its read() and on the reference editor; distinct_nontrivial counts transitions whose real and reference views agreed (each is a distinct history). Plus a character sweep: every non-control character of the Basic Multilingual Plane and 4 blocks beyond it (thorough: planes 0-3 and the first 4096 of plane 14) in 24 key templates (the character next to a letter, punctuation, a space and itself; 0..7 word motions from either end then an insertion; Backspace/Delete around it; a line of it alone; recalled from history and edited). Plus amounts: lines of 255..5000 characters edited at both ends and in the middle, and histories of 10..1000 submitted lines walked past both ends (each of the last 40 prefixes judged)";
     finish(
         ctx,
         acc,
         Level { category: "model_checking", bfs: Some((stats.states, stats.transitions + raw_transitions, stats.transitions + raw_transitions, stats.max_depth)) },
         rule,
         !stats.capped && !stats_raw.capped,
-        &["multibyte-left-of-cursor", "line-submitted", "history-focused", "character-sweep"],
+        &["multibyte-left-of-cursor", "line-submitted", "history-focused", "character-sweep", "long-lines-and-histories"],
         &["fresh Terminal per history equals a fresh process (no TTY, no history file)", "reference editor semantics follow the doc comments of terminal.rs (history focus, Vim w/b word motions)"],
         json!({"measured_variant_w_stops_at_trailing_space": variant(), "measured_variant_blank_history_submits": variant_blank(), "dedup_depth": dedup_depth, "raw_depth": raw_depth, "dedup": {"states": stats.states, "transitions": stats.transitions, "per_level": stats.per_level, "capped": stats.capped}, "raw": {"transitions": raw_transitions, "per_level": stats_raw.per_level}}),
     )
